@@ -495,3 +495,12 @@ impl PathResponses {
             .collect()
     }
 }
+
+#[cfg(feature = "quinn_rs_quinn_verif")]
+impl RttEstimator {
+    /// (smoothed RTT or, before the first sample, the initial RTT; RTT variance): the two inputs of the probe timeout
+    /// formula of RFC 9002 6.2.1, so that a checker can compute the PTO itself
+    pub(crate) fn verif_rtt_var(&self) -> (Duration, Duration) {
+        (self.get(), self.var)
+    }
+}
